@@ -140,6 +140,12 @@ def shapes(tier, seed):
                 add([op, l1, l2], s)
             add(["not", [op, l1, l2]], sels[0])
         add(["or", ["not", l1], l2], sels[0])
+    # an EMPTY domain (while instances of that type exist elsewhere): no row, whatever is enumerated first or how often
+    EMPTY = dict(pools={"X": 2, "Y": 0}, vars={"x": "X", "y": "Y"}, outside={"Other": 2, "Item": 1})
+    for c in (J[3], J[5], SX[0], SY[0], None, ["or", SX[0], SY[0]], ["and", SX[0], J[3]]):
+        for s in ([["v", "x"], ["v", "y"]], [["v", "y"], ["v", "x"]], [["v", "y"]]):
+            add(c, s, base=EMPTY)
+    add(SY[0], [["v", "y"]], base=dict(pools={"Y": 0, "X": 2}, vars={"y": "Y", "x": "X"}, outside={"Other": 2}), form="entity")
     # declaration order of the variables swapped
     for l in J[:4]:
         d = dict(pools={"X": 2, "Y": 2}, refs={"X": "Y"}, vars={"y": "Y", "x": "X"}, cond=l, select=sels[0])
